@@ -420,6 +420,7 @@ class Chapter11(object):
             "packetlen",
             "datalen",
             "datatypeversion",
+            "sequence",
             "datatype",
             "_packetflag",
             "relativetimecounter",
